@@ -245,9 +245,92 @@ def load(R):
                + ["CFGV(result, '%s') == self.%s" % (k, k) for k in ("base_dir",) + OPTKEYS],
                labels={"dict_literals_dynamic": True})
 
+    # From the property ("declarative configuration is honoured"): every field is the explicit argument when one is given, else what the configuration says, else
+    # absent; clusters named by the configuration are loaded -- relative to the configured base directory -- unless an explicit map replaces them; a
+    # repository without a name is refused.
+    R.uf("loaded_config", [TObj(), TObj()], TObj())
+    R.uf("cluster_from", [TObj()], TObj())
+    R.func_hooks["configuration:_load_config"] = lambda ex, args, kwargs: load_config(ex, args)
+
+    def load_config(ex, args):
+        """_load_config(base_dir, config): the configuration object -- itself, or parsed from the file it names relative to base_dir -- or an I/O error."""
+        if ex.choose([z3.BoolVal(True), z3.BoolVal(True)]) == 1:
+            raise PyRaise(VExc("OSError", [], exact=False))
+        r = R.ufs["loaded_config"][0](ex.box(args[0]), ex.box(args[1]))
+        ex.assume(r != PyNone)
+        return VObj(r)
+
+    def function_cluster(ex, args, kwargs):
+        """FunctionCluster(config): proved separately (FunctionCluster.__init__); here the cluster is a function of the configuration object, or ValueError."""
+        if len(args) != 1 or kwargs:
+            raise Unsupported("FunctionCluster(...) of this shape")
+        if ex.choose([z3.BoolVal(True), z3.BoolVal(True)]) == 1:
+            raise PyRaise(VExc("ValueError", []))
+        r = R.ufs["cluster_from"][0](ex.box(args[0]))
+        ex.assume(r != PyNone)
+        return VObj(r, "FunctionCluster")
+    # (variant: the configuration names no clusters -- the loop that loads configured clusters is then not entered; the general case needs the keys of an opaque
+    # mapping as strings and multiplies 128 override paths by the loop: not under contract)
+    CRI = "configuration:ConfigurationRepository.__init__@no-configured-clusters"
+    R.contract(CRI, prop="C18",
+               types={"self": CR, "config": OPTCFG, "name": TObj(), "base_dir": TObj(), "description": TObj(), "maintainer": TObj(), "documentation": TObj(),
+                      "clusters": TOpt(TDict(TStr, TObj("nn:FunctionCluster"))), "modules": TObj()},
+               requires=["not (config is not None and 'clusters' in config)"],
+               ensures=["same(self.name, OVERRIDE(name, config, 'name')) and self.name is not None",
+                        "same(self.base_dir, OVERRIDE(base_dir, config, 'base_dir'))",
+                        "same(self.description, OVERRIDE(description, config, 'description'))",
+                        "same(self.maintainer, OVERRIDE(maintainer, config, 'maintainer'))",
+                        "same(self.documentation, OVERRIDE(documentation, config, 'documentation'))",
+                        "implies(modules is not None, same(self.modules, modules))",
+                        "implies(modules is None and CFGV(config, 'modules') is not None, same(self.modules, CFGV(config, 'modules')))",
+                        "self.modules is not None",
+                        # an explicit cluster map replaces the configured one entirely
+                        "implies(clusters is not None, forall(str, lambda k: (k in self.clusters) == (k in clusters) and implies(k in clusters, same(self.clusters[k], clusters[k]))))",
+                        "implies(clusters is None, forall(str, lambda k: k not in self.clusters))"],
+               raises={"ValueError": ["OVERRIDE(name, config, 'name') is None"]},
+               when_raises={"ValueError": "OVERRIDE(name, config, 'name') is None"},
+               loops={1: ["False"]},
+               modifies=["self.*"])
+
     EN = TEnt("Environment")
     REPO = TObj("nn:ConfigurationRepository")
     R.entity("Environment", ("configuration", "Environment"), dict(config=CFG, name=TObj(), base_dir=TObj(), repos=TList(REPO), default_cluster=TObj("nn:FunctionCluster")))
+    # From the property ("honoured, ordered"): name and base directory are the explicit arguments when given, else the configuration's ("default" when it names
+    # none); an explicit repository list replaces the configured one; otherwise the repositories are those the configuration lists, IN THAT ORDER (the order is
+    # the search priority of get_cluster), each loaded relative to the configured base directory.
+    R.uf("repo_from", [TObj()], TObj())
+    R.uf("default_cluster_of", [TObj()], TObj())
+
+    def repo_ctor(ex, args, kwargs):
+        if len(args) != 1 or kwargs:
+            raise Unsupported("ConfigurationRepository(...) of this shape")
+        if ex.choose([z3.BoolVal(True), z3.BoolVal(True)]) == 1:
+            raise PyRaise(VExc("ValueError", []))
+        r = R.ufs["repo_from"][0](ex.box(args[0]))
+        ex.assume(r != PyNone)
+        return VObj(r, "ConfigurationRepository")
+
+    def default_cluster_ctor(ex, args, kwargs):
+        r = R.ufs["default_cluster_of"][0](ex.box(args[0]))
+        ex.assume(r != PyNone)
+        return VObj(r, "FunctionCluster")
+    ENV_I = "configuration:Environment.__init__"
+    R.contract(ENV_I, prop="C18", types={"self": EN, "config": OPTCFG, "name": TObj(), "base_dir": TObj(), "repos": TOpt(TList(REPO))},
+               requires=["implies(config is not None and 'repos' in config, config['repos'] is not None)"],
+               ensures=["implies(name is not None, same(self.name, name))",
+                        "implies(name is None and config is not None and 'name' in config, same(self.name, config['name']))",
+                        "implies(name is None and not (config is not None and 'name' in config), self.name == 'default')",
+                        "same(self.base_dir, OVERRIDE(base_dir, config, 'base_dir'))",
+                        "implies(repos is not None, len(self.repos) == len(repos) and forall(int, lambda j: implies(0 <= j and j < len(repos), same(self.repos[j], repos[j]))))",
+                        "implies(repos is None and not (config is not None and 'repos' in config), len(self.repos) == 0)",
+                        "implies(repos is None and config is not None and 'repos' in config, len(self.repos) == len(config['repos']) and forall(int, lambda j: implies(0 <= j and j < len(config['repos']), "
+                        "same(self.repos[j], repo_from(loaded_config(CFGV(config, 'base_dir'), config['repos'][j]))))))",
+                        "self.default_cluster is not None"],
+               raises={"ValueError": [], "OSError+": []},
+               loops={1: ["len(comp_result) == loop_i", "forall(int, lambda j: implies(0 <= j and j < loop_i, same(comp_result[j], repo_from(loaded_config(CFGV(config0, 'base_dir'), loop_list[j])))))"]},
+               labels={"comp_types": {1: REPO}, "constructors": {"ConfigurationRepository": repo_ctor, "_DefaultFunctionCluster": default_cluster_ctor},
+                       "entry_snapshot": {"config0": "config"}},
+               modifies=["self.*"])
     R.contract("configuration:Environment.to_dict", prop="C18", types={"self": EN}, returns=CFG,
                ensures=["'name' in result and result['name'] == self.name", "'repos' in result", "len(result['repos']) == len(self.repos)",
                         "forall(int, lambda j: implies(0 <= j and j < len(self.repos), same(result['repos'][j], dump_of(self.repos[j]))))",
